@@ -208,6 +208,14 @@ func RunInterleave(c *sim.Ctx, prop string) {
 	for i := 0; i < env.keptReads; i++ {
 		c.Probe("underlying_read_through_kept_handle")
 	}
+	if ss.Wakes > 0 {
+		c.Probe("blocked_task_woken")
+	}
+	if ss.TimersFired > 0 {
+		c.Probe("timer_fired")
+	}
+	c.Count("blocked_tasks_woken", ss.Wakes)
+	c.Count("timers_fired", ss.TimersFired)
 	switches := 0
 	for i := 1; i < len(sched); i++ {
 		if sched[i] != sched[i-1] {
